@@ -6,14 +6,14 @@ timeout = 900
 solver = "kissat"
 function = "Circuit::expandCellsToDensity, expandCellsByFactor, computeRowPlacementArea (per-row step), computeCellExpansion (coloquinte.cpp)"
 variants = [
-  {name = "byFactor", enforce = "Circuit_expandCellsByFactor", tier = "thorough", timeout = 3000, memory_gb = 20, defines = ["H_FACTOR"], replace = ["Circuit_computeRowPlacementArea"]},
   {name = "byFactorStep", enforce = "factor_step", defines = ["H_FSTEP"]},
   {name = "rowAreaStep", properties = ["C18"], enforce = "row_area_step", defines = ["H_ROWAREA"], solver = "cvc5", split = true, timeout = 300},
   {name = "toDensityWidth", properties = ["C18"], enforce = "density_width", defines = ["H_DWIDTH"]},
   {name = "toDensityStep", properties = ["C18"], safety_tier = "thorough", enforce = "density_step", defines = ["H_DSTEP"]},
   {name = "toDensityFrame", properties = ["C18"], safety_tier = "thorough", enforce = "Circuit_expandCellsToDensity", defines = ["H_DFRAME"], replace = ["Circuit_computeRowPlacementArea"]},
 ]
-assumptions = ["the density cap ('utilisation not above the target beyond rounding', 'within one cell height of target*area') is a sum over all cells in double arithmetic: NOT decided here (the per-cell step is proved in two halves: the width is the capped fractional width rounded down, never below the old width under a sufficient cap; the carry receives exactly the AREA h * (fractional - integer width), whole units of width are taken back from it, it stays in [0, h); NOT proved: carry on exit = carry after the addition - h * units (exact repeated double subtraction)",
+assumptions = ["the whole-function variant of expandCellsByFactor (frame + refusal of a factor vector of the wrong length) was dropped from both tiers: its CNF is 316 MB and kissat does not finish within 2.5 CPU hours (DESIGN.md 10.9); the per-cell step (byFactorStep) stays",
+               "the density cap ('utilisation not above the target beyond rounding', 'within one cell height of target*area') is a sum over all cells in double arithmetic: NOT decided here (the per-cell step is proved in two halves: the width is the capped fractional width rounded down, never below the old width under a sufficient cap; the carry receives exactly the AREA h * (fractional - integer width), whole units of width are taken back from it, it stays in [0, h); NOT proved: carry on exit = carry after the addition - h * units (exact repeated double subtraction)",
                "computeRowPlacementArea is replaced by a contract (non-negative area) in the two whole-function variants; computeCellExpansion (std::sort + structured bindings over pairs) is not under contract",
                "termination of the inner carry loop 'while (missingArea >= h)' is not proved (no integer variant over doubles)"]
 @*/
